@@ -113,6 +113,7 @@ type World struct {
 	noFaults bool // set while the harness itself talks to the seams
 	execID   uint64 // process-wide execution counter: object UIDs are unique per execution, so process-global state
 	// in the code under test (e.g. a cache keyed by UID) cannot leak from one in-process execution into the next
+	lastTerminateNode map[string]string // group -> node whose instance escalator last tried to terminate
 	recordKeys bool
 	callKeys []string // "<group>/<op>#<occ>" of every seam call, in order (single-fault sweep)
 }
